@@ -28,6 +28,29 @@ use vcore::ydoc::{self, Node, RenderOpts, Style};
 /// `exhaustive/truncated_types` counts the types where it was).
 const TAPE_CAP: u64 = 200_000;
 
+/// Signatures of open known findings (only to avoid building the replay JSON for cases that
+/// `Run::violation` will fold into a KNOWN-FINDING line anyway).
+fn known_open(sig: &str) -> bool {
+    static K: std::sync::OnceLock<Vec<String>> = std::sync::OnceLock::new();
+    K.get_or_init(|| {
+        vcore::run::load_known_findings()
+            .into_iter()
+            .filter(|k| k.property == "C05" && k.status == "open")
+            .map(|k| k.signature)
+            .collect()
+    })
+    .iter()
+    .any(|k| k == sig)
+}
+
+fn report(run: &Run, sig: &str, case: impl FnOnce() -> serde_json::Value, detail: impl FnOnce() -> String) {
+    if known_open(sig) {
+        run.violation(sig, serde_json::Value::Null, String::new());
+    } else {
+        run.violation(sig, case(), detail());
+    }
+}
+
 fn options() -> serde_saphyr::Options {
     serde_saphyr::Options::default()
 }
@@ -287,22 +310,18 @@ fn check_pair(run: &Run, lo: &mut LeafOracle, loc: &mut Local, ty: &Ty, doc: &st
                 loc.count("verdict/held:value");
                 loc.count(&format!("held_value_by_edit/{edit_class}"));
             } else {
-                run.violation(
-                    &ok_sig(format!("C05:wrong-value:{}", diff_kind(ty, v, got))),
-                    case(),
-                    format!("expected {v:?} | got {got:?}"),
-                );
+                report(run, &ok_sig(format!("C05:wrong-value:{}", diff_kind(ty, v, got))), case, || {
+                    format!("expected {v:?} | got {got:?}")
+                });
             }
         }
         (Expect::MustBe(v), Err(e)) => {
-            run.violation(
-                &format!("C05:rejected:{}", vcore::errs::kind(e)),
-                case(),
-                format!("expected Ok({v:?}) | got Err({e})"),
-            );
+            report(run, &format!("C05:rejected:{}", vcore::errs::kind(e)), case, || {
+                format!("expected Ok({v:?}) | got Err({e})")
+            });
         }
         (Expect::MustErr(r), Ok(got)) => {
-            run.violation(&ok_sig(format!("C05:accepted:{r}")), case(), format!("must fail ({r}) | got Ok({got:?})"));
+            report(run, &ok_sig(format!("C05:accepted:{r}")), case, || format!("must fail ({r}) | got Ok({got:?})"));
         }
         (Expect::MustErr(r), Err(_)) => {
             loc.count("verdict/held:error");
@@ -314,11 +333,9 @@ fn check_pair(run: &Run, lo: &mut LeafOracle, loc: &mut Local, ty: &Ty, doc: &st
                 loc.count(&format!("unspecified/{c}:value"));
                 loc.count("verdict/unspecified-bounded");
             } else {
-                run.violation(
-                    &ok_sig(format!("C05:wrong-value-in-bounded-class:{c}")),
-                    case(),
-                    format!("allowed Err or {v:?} | got {got:?}"),
-                );
+                report(run, &ok_sig(format!("C05:wrong-value-in-bounded-class:{c}")), case, || {
+                    format!("allowed Err or {v:?} | got {got:?}")
+                });
             }
         }
         (Expect::ErrOr(_, c), Err(_)) => {
@@ -475,6 +492,9 @@ fn main() {
 
     let only = std::env::var("C05_ONLY").unwrap_or_default();
     let part_on = |p: &str| only.is_empty() || only.contains(p);
+    if !only.is_empty() {
+        run.note(format!("debug run: only parts {only} executed (C05_ONLY)"));
+    }
     // ---- part A: exhaustive small schemas x all documents x all single edits
     let max_nodes = tier.pick(3, 4);
     let tys = ty::small_tys(max_nodes, &TyGrammar::small());
@@ -532,7 +552,7 @@ fn main() {
     });
 
     // ---- part B: random schemas of depth <= 3 / 4
-    let n_types = tier.pick(6_000, 120_000);
+    let n_types = tier.pick(6_000, 80_000);
     let depth = tier.pick(3, 4);
     eprintln!("part A done at {:.1}s", run.elapsed_s());
     par_range(if part_on("B") { n_types } else { 0 }, |i| {
@@ -560,11 +580,10 @@ fn main() {
 
     // ---- part C: real derived types through from_str, same oracle
     let fam = derived::family();
-    let n_derived = tier.pick(1_500, 30_000);
+    let n_derived = tier.pick(1_500, 20_000);
     eprintln!("part B done at {:.1}s", run.elapsed_s());
     par_range(if part_on("C") { fam.len() * n_derived } else { 0 }, |idx| {
         let d = &fam[idx % fam.len()];
-        let i = (idx / fam.len()) as u64;
         let mut rng = Rng::stream(run.seed ^ 0xDE71, idx as u64);
         let mut lo = LeafOracle::default();
         let mut loc = Local::default();
@@ -572,13 +591,11 @@ fn main() {
         let flow = rng.chance(1, 3);
         let ro = RenderOpts { indent: *rng.pick(&[2usize, 4]), brk: "\n", compact: rng.bool() };
         let mode = format!("derived:{}", d.name);
-        let _ = i;
         run_tape(
             &run, &mut lo, &mut loc, &d.ty, &mut ch, true, 3, &[flow], &ro, &Runner::Derived(d), &mode, "derived",
             |n| Some((0..n.min(8)).map(|_| rng.below(n.max(1))).filter(|_| n > 0).collect()),
             10007,
         );
-        // the dynamic seed on the same exact document must agree as well (cheap cross-check of SchemaSeed)
         loc.flush(&run);
     });
 
